@@ -84,11 +84,11 @@ CHECKS = {
    "EINTR on reads not injected; loopback TCP with a harness peer; NaN payloads compared raw.",
    "deterministic simulation: syscall seam (short reads/writes at link-time-interposed read/recv/write) x seeded delivery schedules, identity oracle", "5/C14"),
  "C17": ("iosim", "fault_enumeration",
-   "Enumerated: 3 modes x 5 initial states x 2 sinks against the documented truth table. Seeded: a re-exec'd child streams data through the sink; the fault plan kills it (SIGKILL) at the N-th write() on the sink after a torn prefix of k bytes, or injects short writes / one EINTR; after every work() the child records how much was consumed. Parent oracle: file is a prefix of (old content +) serialised stream and contains at least everything acknowledged; complete when not killed.",
+   "Enumerated: 3 modes x 6 initial states (incl. content that is not a whole number of samples) x 3 sinks (FileSink<u8>, NoCopyFileSink, FileSink<Float>) against the documented truth table. Seeded: a re-exec'd child streams data through the sink; the fault plan kills it (SIGKILL) at the N-th write() on the sink after a torn prefix of k bytes, or injects short writes / one EINTR / ENOSPC / EIO (4-8 KiB streams; one run in 30 a default-size stream fed more than 1 MiB); after every work() the child records how much was consumed. Parent oracle: file is a prefix of (old content +) serialised stream and contains at least everything acknowledged; complete when not killed.",
    "Process death, not power loss. 'Unwritable' realised as missing parent / directory (root ignores mode bits).",
    "deterministic simulation: crash injection at every write boundary with torn writes (child process), short writes, EINTR; prefix + acknowledged-durability oracle", "5/C17"),
  "C18": ("iosim", "fault_enumeration",
-   "Single-worker runs so that process-wide counts are exact: seeded create/drop histories of 1..20 streams (valid and invalid sizes, element sizes dividing and not, creation/drop on other threads) between canary mappings, with one optional fault (1st or 2nd mmap of a creation -> ENOMEM, ftruncate -> ENOSPC, descriptor limit reached). Checks: aliasing through a window spanning the wrap (every offset of a one-page buffer is enumerated), Err not panic, empty mmap/munmap ledger, /proc/self/maps deleted-file mappings and /proc/self/fd back to baseline, canaries intact, a fresh stream still works.",
+   "Single-worker runs so that process-wide counts are exact: seeded create/drop histories of 1..20 streams (valid and invalid sizes, element sizes dividing and not, creation/drop on other threads) between canary mappings, with one optional fault (1st or 2nd mmap of a creation -> ENOMEM, ftruncate -> ENOSPC, descriptor limit reached). Checks: aliasing through a window spanning the wrap (every offset of a one-page buffer is enumerated), Err not panic, no released stream range unmapped a second time (graveyard in the mmap/munmap seam), stream pairs dropped in seeded order / on another thread / during unwinding, empty mmap/munmap ledger, /proc/self/maps deleted-file mappings and /proc/self/fd back to baseline, canaries intact, a fresh stream still works.",
    "tempfile creation cannot be failed at the libc seam (raw syscalls); address-space exhaustion modelled as ENOMEM at a chosen mmap index.",
    "deterministic simulation: syscall-seam fault injection (mmap/ftruncate/fd limit) over seeded create/drop histories, leak ledger + /proc oracle", "5/C18"),
 
